@@ -385,6 +385,25 @@ func judgeHonest(c *Case, ps *paramSet, st *static, m0 *model, pr *probe, nf pro
 	first := ""
 	if ev.Safely(func() {
 		m := evalModel(c, ps, st, engine, rootsFrom(c, ps, st, pr))
+		// only what was defined before the failure can be compared
+		pr.mu.Lock()
+		n := 0
+		for n < len(m.pool) {
+			if _, ok := pr.meta[n]; !ok {
+				break
+			}
+			n++
+		}
+		for i := range c.Ops {
+			if _, ok := pr.nat[i]; !ok {
+				m.expInt[i], m.congNative[i] = nil, -1
+			}
+		}
+		pr.mu.Unlock()
+		m.pool = m.pool[:n]
+		if n == 0 {
+			return
+		}
 		first = checkObs(c, ps, st, m, pr, nf.Q, res)
 	}) == "" && first != "" && !strings.HasPrefix(first, "harness:") {
 		where += " (first divergence: " + trunc(first, 500) + ")"
